@@ -40,8 +40,8 @@ ASSUMPTIONS = [
     "stored count-down columns are compared with their documented meaning as an observation only",
 ]
 BUDGET = {
-    "quick": dict(cases=150, shards=4, timeout=600),
-    "thorough": dict(cases=2500, shards=16, timeout=3000, time=450),
+    "quick": dict(cases=130, shards=4, timeout=600),
+    "thorough": dict(cases=1500, shards=16, timeout=3000, time=450),
 }
 CLASSES = G.SHAPES + ["general_factor", "no_state_dir", "user_entries", "budget_only", "es_only", "rlr_only"]
 FLOORS = {
